@@ -78,6 +78,17 @@ PROPS = {
         level_note="Model-level proof + black-box tie; the remote shell commands (cat/mv/touch/find/xargs) and tokio scheduling are trusted/abstracted (any order is proved equivalent). Non-zero exits are counted, their partial effects are not compared.",
         technique="Lean 4 proof (lookup characterisation of folds, permutation invariance) + black-box correspondence in three directions",
     ),
+    "C13": dict(
+        modules=["Copia.Props.C13"], namespaces=["Copia.C13"], runner="bb", bb_module="bb_hubsync",
+        assumptions=_HUB_ASSUME + ["the hub side is the sequential CAS-Put semantics (its atomicity under concurrency is C03); local trees without a top-level `.copia` directory",
+                                   "interference is modelled per Put (stale `expected`); an environment that deletes files is outside 'still retrievable'"],
+        trusted_base=_HUB_TB + ["tools/sshstub/ssh and tools/sshrelay (pausing relay) as SSH stand-ins"],
+        level_text="Kernel-checked theorems over the client program on the hub's CAS semantics, for ALL hub trees and local trees: without interference every local file ends up on the hub at its path, other paths are untouched, "
+                   "no conflict is reported, and a second run sends nothing; with a stale listing each Put still lands the bytes at the path or at its conflict-copy and never overwrites the live value. "
+                   "Tie: real `copia hub-sync` runs to a local target and to `host:root` (SSH stand-in), immediate second runs, and stale listings forced by a relay that holds client 1 between List and Put while client 2 commits.",
+        level_note="Model-level proof + black-box runs; concurrency of the hub itself is C03/C10.",
+        technique="Lean 4 proof (loop invariant over the client's file list; CAS lemmas) + black-box runs incl. forced stale listings",
+    ),
     "C14": dict(
         modules=["Copia.Props.C14"], namespaces=["Copia.C14"], runner="bb", bb_module="bb_oneway",
         assumptions=_OW_ASSUME, trusted_base=_OW_TB,
